@@ -15,7 +15,8 @@ buildv=ok; go build -tags verif ./... >/dev/null 2>&1 || buildv=FAIL
 suite=pass; go test -vet=off -count=1 ./... >/tmp/sw-$name.suite 2>&1 || suite=FAIL
 cp /tmp/seed/${name}_demo_test.go $dir/seed_demo_test.go
 with=pass; (cd $dir && go test -vet=off -count=1 -run 'TestSeedDemo' . >/tmp/sw-$name.with 2>&1) || with=fail
-git stash -q
+rm -f $dir/seed_demo_test.go
+git apply -R /tmp/seed/$name.patch 2>/dev/null || git checkout -q -- .
 cp /tmp/seed/${name}_demo_test.go $dir/seed_demo_test.go
 without=pass; (cd $dir && go test -vet=off -count=1 -run 'TestSeedDemo' . >/tmp/sw-$name.without 2>&1) || without=fail
 echo "$name: build=$build buildverif=$buildv suite_with_change=$suite demo_with_change=$with demo_without=$without"
